@@ -513,7 +513,20 @@ func runC16(c *fw.Ctx, idx int) {
 			switch c.Rng.Intn(5) {
 			case 0:
 				if len(log) > 3 {
-					log = log[:2+c.Rng.Intn(len(log)-2)]
+					cut := 2 + c.Rng.Intn(len(log)-2)
+					// half of the time the stream is abandoned in the middle of a chunked array (right after one of its data events),
+					// where encoders and validators hold partially buffered state
+					var inside []int
+					for j, e := range log {
+						if e.K == ev.DATA && j+1 < len(log) && (log[j+1].K == ev.CHUNK || log[j+1].K == ev.DATA) {
+							inside = append(inside, j+1)
+						}
+					}
+					if len(inside) > 0 && c.Rng.Intn(2) == 0 {
+						cut = inside[c.Rng.Intn(len(inside))]
+						desc = "mid-array-" + desc
+					}
+					log = log[:cut]
 					desc = "abandoned-" + desc
 				}
 			case 1:
